@@ -251,17 +251,21 @@ class Run:
         return True
 
     # ------------------------------------------------------------------ strict (step-level) conformance
-    def tlc_strict(self, module, trace, field, const, to_const=lambda v: v, selftest=None, timeout=1200):
-        """field / const may be tuples: several tier-I constants that vary per run (one TLC pass per combination)."""
+    def tlc_strict(self, module, trace, field, const, to_const=lambda v: v, selftest=None, timeout=1200, accept=None):
+        """field / const may be tuples: several tier-I constants that vary per run (one TLC pass per combination);
+        to_const may then be a tuple of functions, one per field. A constant is set where the cfg has `C = ...`
+        or `C <- ...`. `accept(reset_record)` says which runs the module covers at all (the others are skipped
+        by the module itself and not counted here)."""
         if isinstance(field, (list, tuple)):
             fields, consts = list(field), list(const)
-            keyof = lambda ev: tuple(to_const(ev.get(f)) for f in fields)
+            fns = list(to_const) if isinstance(to_const, (list, tuple)) else [to_const] * len(fields)
+            keyof = lambda ev: tuple(fn(ev.get(f)) for fn, f in zip(fns, fields))
         else:
             fields, consts = [field], [const]
             keyof = lambda ev: (to_const(ev.get(field)),)
-        return self._tlc_strict(module, trace, keyof, consts, selftest, timeout)
+        return self._tlc_strict(module, trace, keyof, consts, selftest, timeout, accept)
 
-    def _tlc_strict(self, module, trace, keyof, consts, selftest, timeout):
+    def _tlc_strict(self, module, trace, keyof, consts, selftest, timeout, accept=None):
         """Step-level trace validation of a tier-I module: every record of the recorded trace must be explained
         by an action of the tier-I module (module = <TierI>Strict.tla, which EXTENDS it). The tier-I constant
         `const` varies per run (Reset field `field`), so TLC is run once per value; runs of other values are
@@ -270,32 +274,39 @@ class Run:
         is corrupted first and the pass must report drift there - the binding is not vacuous."""
         vals, nrec = collections.OrderedDict(), collections.Counter()
         curv = None
+        owner = []      # per line: the key of the run it belongs to (None: a run the module does not cover)
         with open(trace) as f:
             lines = f.readlines()
         for line in lines:
+            owner.append(None)
             try:
                 ev = json.loads(line)
             except Exception:
                 continue
             if ev.get("ev") == "Reset":
-                curv = keyof(ev)
-                vals[curv] = vals.get(curv, 0) + 1
+                curv = keyof(ev) if (accept is None or accept(ev)) else None
+                if curv is not None:
+                    vals[curv] = vals.get(curv, 0) + 1
             if curv is not None:
                 nrec[curv] += 1
+            owner[-1] = curv
         drift, passes = [], 0
+        if not vals:
+            raise Inconclusive("strict validation with %s: the trace has no run the module covers" % module)
         base = open(os.path.join(SPEC, module + ".cfg")).read()
 
         def one(cval, tlines, tag):
-            d = os.path.join(self.scratch, "ts-%s-%s-%d" % (module, tag, len(os.listdir(self.scratch))))
-            os.makedirs(d)
+            d = tempfile.mkdtemp(prefix="ts-%s-%s-" % (module, tag), dir=self.scratch)
             for f in os.listdir(SPEC):
                 if f.endswith(".tla"):
                     shutil.copy(os.path.join(SPEC, f), d)
             cfg = base
             for cn, cv in zip(consts, cval):
-                cfg = re.sub(r"(?m)^(\s*%s\s*=\s*).*$" % re.escape(cn), lambda m, cv=cv: m.group(1) + str(cv), cfg)
+                cfg = re.sub(r"(?m)^(\s*%s\s*(?:=|<-)\s*).*$" % re.escape(cn), lambda m, cv=cv: m.group(1) + str(cv), cfg)
             open(os.path.join(d, module + ".cfg"), "w").write(cfg)
-            open(os.path.join(d, "trace.ndjson"), "w").writelines(tlines)
+            # a pass sees only the runs of its own constants (the module would skip the others record by record)
+            idx = [i for i in range(len(tlines)) if owner[i] == cval]
+            open(os.path.join(d, "trace.ndjson"), "w").writelines(tlines[i] for i in idx)
             p = self._tlc(["-workers", "1", "-config", module + ".cfg", module + ".tla"], d, timeout, env={"JAVA_TOOL_OPTIONS": "-Xss512m"})
             dp = os.path.join(d, "drift.ndjson")
             if "Model checking completed. No error has been found." not in p.stdout or not os.path.exists(dp):
@@ -303,10 +314,15 @@ class Run:
                 raise Inconclusive("strict validation with %s did not consume the trace" % module)
             m = re.search(r"(\d+) states generated, (\d+) distinct states found", p.stdout)
             out = [json.loads(x) for x in open(dp) if x.strip()]
+            for g in out:
+                g["l"] = idx[g["l"] - 1] + 1        # back to the line number of the recorded file
             shutil.rmtree(d, ignore_errors=True)
             return out, int(m.group(2)) if m else 0
-        for cval in vals:
-            got, st = one(cval, lines, "v%s" % "-".join(str(x) for x in cval))
+        import concurrent.futures
+        with concurrent.futures.ThreadPoolExecutor(max_workers=8) as ex:
+            futs = [(cval, ex.submit(one, cval, lines, "v%s" % "-".join(re.sub(r"\W", "", str(x)) for x in cval))) for cval in vals]
+            res = [(cval, f.result()) for cval, f in futs]
+        for cval, (got, st) in res:
             self.monitor_states += st
             passes += 1
             for g in got:
@@ -339,7 +355,17 @@ class Run:
                     continue
                 if ev.get("ev") == "Reset":
                     cv = keyof(ev)
+            if cv not in vals:
+                raise Inconclusive("strict self-test of %s corrupted a record of a run the module does not cover" % module)
+            # only the run that holds the corrupted record is validated again
+            lo = max(i for i in range(where) if '"ev":"Reset"' in lines[i] or '"ev": "Reset"' in lines[i])
+            hi = next((i for i in range(where, len(lines)) if '"ev":"Reset"' in lines[i] or '"ev": "Reset"' in lines[i]), len(lines))
+            saved = list(owner)
+            for i in range(len(owner)):
+                if not (lo <= i < hi):
+                    owner[i] = None
             got, _ = one(cv, mut, "selftest")
+            owner[:] = saved
             hit = [g for g in got if g["l"] >= where and g["l"] <= where + 40]
             info["selftest"] = {"corrupted_record": where, "drift_reported_at": [g["l"] for g in hit][:3]}
             if not hit:
